@@ -224,8 +224,8 @@ def c08c(prog, R):
     r.floor(15)
 
 
-def c08d(prog, R):
-    r = R.rule("C08.d", "every pointer written is registered for GC accounting", "P,D")
+def c08d(prog, R, rid="C08.d"):
+    r = R.rule(rid, "every pointer written is registered for GC accounting", "P,D")
     # BlobTree::flush_to_tables: after blob_writer.write every success path reaches register_blob before the next item
     f = prog.need(A.BLOB_FLUSH_TO_TABLES)
     bw = [c for c in f.calls if c.sres == "vlog::blob_file::multi_writer::MultiWriter::write"]
@@ -270,7 +270,28 @@ def c08d(prog, R):
         r.check(cond_ok and g_ok, "StandardCompaction::write|indirection => register_blob", "pass-through of pointers no longer registers the blob link", "")
     else:
         r.anchor_missing("StandardCompaction::write HIR")
-    r.floor(6)
+    # the link is credited to the table that holds the pointer: MultiWriter::write rotates to a new table *before* it
+    # writes the first key past the target size, so the pointer has to be written first and registered afterwards;
+    # registering first credits the first pointer of every rotated table to the previous table
+    TW = "table::multi_writer::MultiWriter::write"
+    n = 0
+    for p, g_ in sorted(prog.fns.items()):
+        regs = [c for c in g_.calls if c.sres == REGISTER_BLOB]
+        if not regs:
+            continue
+        writes = {c.bb for c in g_.calls if c.sres == TW}
+        nxt = {c.bb for c in g_.calls if (c.sres or "").endswith("Iterator>::next") or c.sres == "std::iter::Iterator::next"}
+        for c in regs:
+            n += 1
+            after = g_.reach_after(c.bb, stop_at=nxt)
+            late = sorted(after & writes)
+            r.check(not late, "%s|the pointer is written before its blob link is registered" % p,
+                    "register_blob runs before the table write of the same item: when that write rotates the table writer the "
+                    "link is credited to the previous table (its garbage is over-counted, the new table's under-counted)",
+                    g_.where(c.bb))
+    if n < 4:
+        r.anchor_missing("register_blob call sites (found %d, confirmed 4)" % n)
+    r.floor(10)
 
 
 def c08e(prog, R):
